@@ -322,9 +322,23 @@ func (h c02FaultHook) ProcessHook(next redis.ProcessHook) redis.ProcessHook {
 	}
 }
 
-type c02RedisAger struct{ mr *miniredis.Miniredis }
+// miniredis has no clock of its own: Sync lets it follow the wall clock (called before every operation), Age adds the
+// virtual advance - so its notion of time is "real + shift" like everything else, also on a slow, busy machine
+type c02RedisAger struct {
+	mr   *miniredis.Miniredis
+	last *time.Time
+}
+
+func (a c02RedisAger) Sync() {
+	now := time.Now()
+	if el := now.Sub(*a.last); el > 0 {
+		a.mr.FastForward(el)
+	}
+	*a.last = now
+}
 
 func (a c02RedisAger) Age(d time.Duration, rewrite func(fullKey string, value []byte) []byte) {
+	a.Sync()
 	for _, k := range a.mr.Keys() {
 		if v, err := a.mr.Get(k); err == nil {
 			if nv := rewrite(k, []byte(v)); string(nv) != v {
@@ -352,7 +366,8 @@ func c02NewWorld(t *testing.T, cfg c02Op) *c02World {
 		client.AddHook(c02FaultHook{w})
 		w.redis = true
 		sessionDB = storage.NewRedisSessionDatabase(client, "nuts")
-		w.db = c02RedisAger{mr}
+		start := time.Now()
+		w.db = c02RedisAger{mr, &start}
 		t.Cleanup(func() { _ = client.Close() })
 	} else {
 		// pass-through wrapper that announces every session-store method call: used to force interleavings of two requests
@@ -1235,6 +1250,9 @@ func (w *c02World) execCode(op *c02Op) string {
 }
 
 func (w *c02World) exec(op *c02Op) string {
+	if ra, ok := w.db.(c02RedisAger); ok {
+		ra.Sync()
+	}
 	switch op.Op {
 	case "s2s":
 		return w.execS2S(op)
@@ -1994,12 +2012,19 @@ func (g *c02Gen) codeRequest(defects []string) c02Op {
 	if has("bogus-code") {
 		op.Code = c02Ptr("bogus-code")
 		// a value that lives in ANOTHER session store: a nonce, a state, an access token
+		// (with the client id and PKCE verifier of the session that value belongs to: nothing but the store it lives in
+		// must keep it from being redeemed)
 		switch r := g.rng.Intn(4); {
 		case r == 0 && len(g.sessions) > 0:
-			sess := g.sessions[g.rng.Intn(len(g.sessions))]
+			sess := g.sessions[len(g.sessions)-1-g.rng.Intn(min(3, len(g.sessions)))]
 			op.Code = c02Ptr(sess.Nonces[g.rng.Intn(len(sess.Nonces))])
+			verifier, client = sess.Verifier, sess.Spec.ClientID
+			op.Verifier, op.ClientID = &verifier, &client
 		case r == 1 && len(g.sessions) > 0:
-			op.Code = c02Ptr(g.sessions[g.rng.Intn(len(g.sessions))].State)
+			sess := g.sessions[len(g.sessions)-1-g.rng.Intn(min(3, len(g.sessions)))]
+			op.Code = c02Ptr(sess.State)
+			verifier, client = sess.Verifier, sess.Spec.ClientID
+			op.Verifier, op.ClientID = &verifier, &client
 		case r == 2 && len(g.issued) > 0:
 			op.Code = c02Ptr(g.issued[g.rng.Intn(len(g.issued))])
 		}
@@ -2659,6 +2684,35 @@ func c02Targeted(t *testing.T, out *c02Out, seed int64) {
 						out.emit(&in, w.exec(&in))
 					}
 				}
+			}
+		}
+		// (g) values of the OTHER session stores presented as authorization code, with the right client id and PKCE verifier of
+		//     the session they belong to: the state of a running session, its nonce, and (after completion) again the state
+		for k := 0; k < 3; k++ {
+			req, sess := g.authRequest(nil)
+			line := w.exec(&req)
+			out.emit(&req, line)
+			if !strings.HasPrefix(line, "302 ") {
+				continue
+			}
+			f := strings.Fields(line)
+			sess.State, sess.Nonces = f[1][len("state="):], []string{f[2][len("nonce="):]}
+			g.sessions = append(g.sessions, sess)
+			redeem := func(value string) {
+				v, c := sess.Verifier, sess.Spec.ClientID
+				op := c02Op{Op: "code", Subject: sess.Spec.OwnSubject, Code: &value, Verifier: &v, ClientID: &c, DPoP: &c02DPoP{Kind: "absent"},
+					Sha: []c02Sha{{In: v, Out: c02S256(v)}}, Defects: []string{"cross-store:" + value}}
+				out.emit(&op, w.exec(&op))
+			}
+			switch k {
+			case 0:
+				redeem(sess.State)
+			case 1:
+				redeem(sess.Nonces[0])
+			default:
+				ar := g.authResponse(sess, nil, w.nowMs())
+				out.emit(&ar, w.exec(&ar))
+				redeem(sess.State)
 			}
 		}
 		w.ctrl.Finish()
